@@ -130,7 +130,8 @@ def decItems (toks : List String) : Option (List Item × Nat) :=
   let rec go : List String → List (Nat × Nat) → List Item → Nat → Nat → Option (List Item × Nat)
     | [], _, acc, _, total => some (acc.reverse, total)
     | t :: ts, defs, acc, cur, total =>
-      if t.startsWith "D" then
+      if t.startsWith "after=" then go ts defs acc cur total
+      else if t.startsWith "D" then
         match parseDecD t with
         | some (.def_ h a m f d) =>
           let len := 6 + 3 * f.length + (if h &&& 0x20 == 0x20 then 1 + 3 * d.length else 0)
